@@ -482,4 +482,71 @@ theorem words_glue {ind : Str} (hind : ∀ c ∈ ind, isWs c = true) :
       List.cons_append] at ih ⊢
     rw [words_ws _ _ hc, ih, words_all_ws_append hind]
 
+
+/-! ### blank lines after `rstrip` -/
+
+theorem rstrip_eq_nil_iff (l : Str) : rstrip l = [] ↔ ∀ c ∈ l, isWs c = true := by
+  obtain ⟨⟨t, ht, htw⟩, _⟩ := rstrip_spec l
+  constructor
+  · intro h c hc
+    rw [ht, h, List.nil_append] at hc
+    exact htw c hc
+  · intro h
+    cases hg : (rstrip l).getLast? with
+    | none => exact List.getLast?_eq_none_iff.1 hg
+    | some c =>
+      have hc := (rstrip_spec l).2 c hg
+      have hmem : c ∈ l := (rstrip_prefix l).subset (List.mem_of_getLast? hg)
+      rw [h c hmem] at hc
+      cases hc
+
+/-- a line that starts with a white-space indent and holds a non-white-space character keeps
+the indent when it is right-stripped -/
+theorem rstrip_keeps_indent {ind l : Str} (hind : ∀ c ∈ ind, isWs c = true) (hp : ind <+: l)
+    (hne : ∃ c ∈ l, isWs c = false) : ind <+: rstrip l := by
+  rcases List.prefix_or_prefix_of_prefix hp (rstrip_prefix l) with h | h
+  · exact h
+  · exfalso
+    obtain ⟨c, hc, hcw⟩ := hne
+    have hall : ∀ c ∈ l, isWs c = true := by
+      apply (rstrip_eq_nil_iff l).1
+      cases hg : (rstrip l).getLast? with
+      | none => exact List.getLast?_eq_none_iff.1 hg
+      | some x =>
+        have hx := (rstrip_spec l).2 x hg
+        have hmem : x ∈ ind := h.subset (List.mem_of_getLast? hg)
+        rw [hind x hmem] at hx
+        cases hx
+    rw [hall c hc] at hcw
+    cases hcw
+
+/-! ### the `write$` buffer -/
+
+theorem foldl_outputStep (pieces buffer : List Str) :
+    pieces.foldl outputStep buffer = buffer ++ pieces := by
+  induction pieces generalizing buffer with
+  | nil => simp
+  | cons p ps ih => simp [List.foldl_cons, outputStep, ih]
+
+theorem engineSteps_eq (ls : List (List Str)) (lines : List Str) :
+    engineSteps (lines, []) ls =
+      (lines ++ (ls.map fun pieces => [wrapDefault pieces.flatten, ['\n']]).flatten, []) := by
+  induction ls generalizing lines with
+  | nil => simp [engineSteps]
+  | cons p ps ih =>
+    simp only [engineSteps, newlineStep, foldl_outputStep, List.nil_append, ih, List.map_cons,
+      List.flatten_cons, List.append_assoc]
+
+/-- every `newline$` contributes the wrapped concatenation of its pieces and one line feed -/
+theorem engineOutput_eq (ls : List (List Str)) :
+    engineOutput ls = (ls.map fun pieces => wrapDefault pieces.flatten ++ ['\n']).flatten := by
+  simp only [engineOutput, engineSteps_eq, List.nil_append]
+  induction ls with
+  | nil => rfl
+  | cons p ps ih => simp [List.flatten_cons, ih]
+
+theorem engineOutput_cons (p : List Str) (ps : List (List Str)) :
+    engineOutput (p :: ps) = wrapDefault p.flatten ++ '\n' :: engineOutput ps := by
+  simp [engineOutput_eq]
+
 end Pybtex.Wrap
